@@ -1,7 +1,7 @@
 """Per-property checks: which scenarios, how many, on which configurations."""
 import time
 
-from . import runner, scen_bus, scen_hostile, scen_rules, scen_deadline, scen_access, scen_res, scen_alloc, scen_connend, scen_http, scen_ws, scen_seg  # noqa: F401 (scenario registration)
+from . import runner, scen_bus, scen_hostile, scen_rules, scen_deadline, scen_access, scen_res, scen_alloc, scen_connend, scen_http, scen_ws, scen_seg, scen_out, scen_fault  # noqa: F401 (scenario registration)
 from .runner import report, run_cases, seed
 
 CHECKS = {}
@@ -397,3 +397,71 @@ def c09(tier):
                   "== k-th message sent) over bus and hostile workloads; distinct = (policy, size class, transports) signatures",
                   t0, tier, SIM_ASSUME + ["cross-connection output order is not compared; message completions keep the reference's global order (the property's side condition)"],
                   min_events={"variant_runs": 1000, "variants_identical": 1, "messages_parsed": 5000})
+
+
+def _out_combos(rng, wbuf, n, dense=None):
+    combos = []
+    for i in range(n):
+        if dense is not None:
+            b0 = dense[i % len(dense)]
+        else:
+            b0 = rng.choice([0, 1, 2, 3, 4, 5, 6, 7, 60, 65, 66, 67, 70, wbuf - 1, wbuf, wbuf + 1, rng.randrange(0, 2 * wbuf)])
+        cap = rng.choice([-1, -1, -1, 1, 2, 3, 7, 64])
+        k = rng.choice([1, 1, 2, 3, 5])
+        sizes = [rng.choice([0, 1, 10, wbuf // 4, wbuf // 2, wbuf - 70, wbuf - 66, wbuf - 60, wbuf, wbuf + 5, 2 * wbuf, 3 * wbuf]) for _ in range(k)]
+        cont = rng.choice(["one", "two", "frame-1", "small", "inf", "inf", "error"] if i == n - 1 else ["one", "two", "frame-1", "small", "inf", "inf"])
+        combos.append((b0, cap, sizes, cont, rng.random() < 0.4))
+    return combos
+
+
+@check("C10")
+def c10(tier):
+    t0 = time.time()
+    s = seed()
+    q = tier == "quick"
+    import random
+    rng = random.Random(s)
+    cases = []
+    from . import build as _b
+    for cfg, cnt in (("smallbuf", 900 if q else 12000), ("default", 400 if q else 6000)):
+        wbuf = int(_b.cfg_of(cfg)["CONFIG_MAX_WRITE_BUFFER_SIZE"])
+        for i in range(cnt):
+            cases.append(dict(kind="outbound", seed=rng.randrange(1 << 30), config=cfg, params=dict(combos=_out_combos(rng, wbuf, 8))))
+    # dense part: acceptance point at EVERY byte position of the first two frames (smallbuf)
+    wbuf = int(_b.cfg_of("smallbuf")["CONFIG_MAX_WRITE_BUFFER_SIZE"])
+    for size in ([10, wbuf - 66] if q else [0, 1, 10, 64, 128, wbuf - 70, wbuf - 66, wbuf - 60, wbuf, 2 * wbuf]):
+        for transport in ("raw", "ws"):
+            total = 2 * (size + 70)
+            for chunk in range(0, total, 16):
+                dense = list(range(chunk, min(chunk + 16, total)))
+                combos = [(b, -1, [size, size], rng.choice(["one", "two", "small", "inf"]), False) for b in dense]
+                cases.append(dict(kind="outbound", seed=rng.randrange(1 << 30), config="smallbuf", params=dict(combos=combos, transport=transport)))
+    res = run_cases(cases)
+    return report("C10", "fault_enumeration", res,
+                  "a subscriber connection receives notification frames of controlled sizes (0 .. 3x the write buffer) while the simulated kernel accepts only a "
+                  "budget of b bytes (then EAGAIN), caps every writev (short writes that end inside the length prefix / WebSocket header / payload / pending "
+                  "buffer), later becomes writable again by 1, 2, 3, 5, frame-1 or all bytes, or fails hard; for the 256-byte-buffer configuration the acceptance "
+                  "point is enumerated at EVERY byte position of two consecutive frames; ground truth = every frame the daemon generated with the return code "
+                  "of its send call (tap on the buffered socket); oracle: bytes accepted by the kernel == concatenation of the successfully sent frames (equality "
+                  "once writable again, prefix while blocked or closed), failed frames contribute nothing, no more than 3 consecutive EAGAINs per descriptor, the "
+                  "daemon always returns to epoll_wait; distinct = (budget class, cap, size classes, continuation, incoming traffic) signatures",
+                  t0, tier, SIM_ASSUME, min_events={"policies": 1000, "eagain_results": 500, "short_writes": 200})
+
+
+@check("C11")
+def c11(tier):
+    t0 = time.time()
+    s = seed()
+    q = tier == "quick"
+    cases = (mk("faulty", 500 if q else 12000, s, "smallbuf", n_ops=70)
+             + mk("faulty", 250 if q else 8000, s + 1, "default", n_ops=70)
+             + mk("faulty", 150 if q else 4000, s + 2, "tiny", n_ops=70))
+    res = run_cases(cases)
+    return report("C11", "fault_enumeration", res,
+                  "random bus histories in which a growing subset of peers is made faulty at seeded moments: stops reading (write budget 0/1/5/70 bytes, 1-byte "
+                  "write cap), hard write errors (EPIPE, ECONNRESET, ENOBUFS), RST without waiting, garbage input; accept() failing with ECONNABORTED / EMFILE / "
+                  "ENFILE / ENOBUFS / ENOMEM / EINTR / EPROTO followed by a fresh connection that must be served; the faulty peers sit at seeded positions of the "
+                  "subscriber tables; all replica / RPC / routing monitors stay armed for the healthy peers (errors that report a failed delivery are tolerated, "
+                  "their effect is read back through a healthy connection and every healthy replica must agree with it); the 256-byte write buffer "
+                  "configuration makes buffers overflow within a few notifications; distinct = (fault kind, transport, role) signatures",
+                  t0, tier, SIM_ASSUME, min_events={"faults": 1000, "accept_faults": 100, "replica_checks_nonempty": 10000, "frames_refused": 100})
